@@ -62,7 +62,7 @@ DATA_SCL_H = ["WRITE-DATA-SCL-H", "WRITE-ACK-SCL-H", "READ-DATA-SCL-H", "READ-AC
 SDA_WITH_SCL_LOW = ["START-SDA-H", "STOP-SDA-L", "WRITE-DATA-SDA-X", "WRITE-ACK-SDA-H", "READ-DATA-SDA-H", "READ-ACK-SDA-X"]
 
 
-def make(period_cyc):
+def make(period_cyc, deep=False):
     def contract(c):
         pads = I2CBus()
         d = I2CInitiator(pads, period_cyc=period_cyc, clk_stretch=True)
@@ -219,18 +219,18 @@ def make(period_cyc):
                  clause="busy stays high until the operation (START/STOP generated, nine pulses of a byte) is finished")
 
         # ---- covers
-        c.cover_depth = 40
+        c.cover_depth = 90 if deep else 40
         c.cover("start_condition", z3.And(sda_changes, scl_o == 1, op == START))
         c.cover("stretch_happens", z3.And(stretched, op == START))
         c.cover("write_first_bit_sampled", z3.And(wr, nsamp == 0, g_data == 0xA5), reach=(P4 == 1))
-        c.cover("write_ack_sampled", z3.And(wr, nsamp == 8, sda_seen == 0), reach=False)
-        c.cover("read_ack_pulse", z3.And(rd, nsamp == 8, g_ack == 1, g_rx == 0x3C), reach=False)
-        c.cover("stop_condition", z3.And(sda_changes, scl_o == 1, op == STOP), reach=False)
-        c.cover("stretch_in_write", z3.And(stretched, op == WRITE, nsamp == 3), reach=False)
+        c.cover("write_ack_sampled", z3.And(wr, nsamp == 8, sda_seen == 0), reach=deep)
+        c.cover("read_ack_pulse", z3.And(rd, nsamp == 8, g_ack == 1, g_rx == 0x3C), reach=deep)
+        c.cover("stop_condition", z3.And(sda_changes, scl_o == 1, op == STOP), reach=True)
+        c.cover("stretch_in_write", z3.And(stretched, op == WRITE, nsamp == 3), reach=(deep or P4 == 1))
     return contract
 
 
 def contracts(tier):
     periods = [4, 8] if tier == "quick" else [4, 5, 8, 12, 16, 100]
     for p in periods:
-        yield ("I2CInitiator", f"period{p}_stretch", make(p))
+        yield ("I2CInitiator", f"period{p}_stretch", make(p, deep=(tier != "quick" and p == 4)))
